@@ -257,6 +257,10 @@ func run(args []string) {
 			watchdog.Stop()
 		}
 		watchdog = time.AfterFunc(time.Duration(*caseTimeout*float64(time.Second)), func() {
+			if !harness.InProgram.Load() {
+				fmt.Fprintf(os.Stderr, "worker: HARNESS-SLOW: case %d is not finished after %.0fs of wall-clock time, and no simulated program is running: the time goes into the harness's own code (generator, reference model or oracle)\n", idx, *caseTimeout)
+				os.Exit(98)
+			}
 			fmt.Fprintf(os.Stderr, "worker: case %d does not finish within %.0fs of wall-clock time\n", idx, *caseTimeout)
 			os.Exit(97)
 		})
@@ -415,6 +419,10 @@ func one(args []string) {
 		os.Exit(2)
 	}
 	time.AfterFunc(time.Duration(*caseTimeout*float64(time.Second)), func() {
+		if !harness.InProgram.Load() {
+			fmt.Fprintf(os.Stderr, "worker: HARNESS-SLOW: case %d is not finished after %.0fs of wall-clock time, and no simulated program is running: the time goes into the harness's own code (generator, reference model or oracle)\n", *idx, *caseTimeout)
+			os.Exit(98)
+		}
 		fmt.Fprintf(os.Stderr, "worker: case %d does not finish within %.0fs of wall-clock time\n", *idx, *caseTimeout)
 		os.Exit(97)
 	})
